@@ -509,7 +509,33 @@ def subsetGdef (p : LPlan) (g : GdefIn) : Outcome :=
     | none => .dropped
     | some bs => .ok bs
 
+/-! ## GSUB / GPOS: `passthrough_table`
+
+klippa has no GSUB / GPOS subsetter: `subset_table` sends both tags to `passthrough_table`, which
+copies the table bytes; the subset therefore holds the ORIGINAL lookups, stated in OLD glyph ids,
+old mark-filtering-set indices and old variation indices. -/
+
 /-- `passthrough_table`: the table bytes are copied -/
 def passthrough (bytes : List Nat) : List Nat := bytes
+
+/-- a SingleSubst subtable at the level "coverage + substitute per coverage index" (format 2; a
+format 1 table is the same with `substitute = glyph + delta`) -/
+structure SingleSubst where
+  cov : Coverage
+  subst : List Nat
+  deriving Repr
+
+/-- applying the subtable to one glyph -/
+def SingleSubst.apply (t : SingleSubst) (g : Nat) : Option Nat :=
+  match t.cov.get g with
+  | some i => t.subst[i]?
+  | none => none
+
+/-- the glyph ids the subtable is stated in -/
+def SingleSubst.mentioned (t : SingleSubst) : List Nat := t.cov.glyphs ++ t.subst
+
+/-- the glyph ids a PairPos format 1 subtable (C16's `PairPos1`) is stated in -/
+def pairMentioned {V : Type} (t : PairPos1 V) : List Nat :=
+  t.cov.glyphs ++ t.pairSets.flatMap (fun ps => ps.map (·.1))
 
 end FontVerif.SubsetGdef
